@@ -94,6 +94,17 @@ def check_index(ix, model, what, auto=False):
     need(len(pos) == n and pos.tolist() == list(range(n)), 'positions', 'positions %s' % short(pos))
     need(len({c if not isinstance(c, np.datetime64) else ('dt', str(c)) for c in _hashable(cm)}) == n, 'duplicate', 'labels not pairwise distinct: %s' % short(cm))
     own = list(ix)  # the labels as the index presents them (verified equal to the model above)
+    if depth == 1 and n and all(isinstance(c, (int, np.integer)) and not isinstance(c, (bool, np.bool_)) for c in cm):
+        # membership of several candidates at once: integer labels held and not held (negative, beyond the length), as an
+        # array and as a list
+        cand = ([int(cm[0])] if n >= 2 else []) + [-1, max(int(c) for c in cm) + 3]
+        cand = [c for c in cand if c == int(cm[0]) or not any(int(x) == c for x in cm)]
+        want = [any(int(c) == x for x in cand) for c in cm]
+        for form in (np.array(cand, dtype=np.int64), list(cand)):
+            gi = lib(ix.isin, form)
+            if isinstance(gi, Raised):
+                raise Failure('raised:%s' % gi.cls, '%s: isin(%r) raised %r' % (what, cand, gi.exc), gi.where)
+            need(arr_list(gi) == want, 'membership', 'isin(%r) = %s expected %s' % (cand, short(arr_list(gi)), want))
     for i, lab in enumerate(model):
         key = own[i] if depth == 1 or not isinstance(own[i], np.ndarray) else tuple(own[i])
         g = lib(ix.loc_to_iloc, key)
